@@ -54,14 +54,14 @@ def ownAllOf (owner fn : Nat) : List (List (Nat × Nat)) :=
 /-- calls of `boxed.rs` that neither create, move nor destroy an owner -/
 def boxedNeutral : List Nat :=
   [Sym.«ev:UnsafeCell::new», Sym.«ev:get», Sym.«ev:cast_const», Sym.«ev:cast_mut», Sym.«ev:as_ref»,
-   Sym.«ev:unwrap_unchecked», Sym.«ev:get_ptrs», Sym.«ev:cast», Sym.«ev:sort_by_key»]
+   Sym.«ev:unwrap_unchecked», Sym.«ev:get_ptrs», Sym.«ev:cast», Sym.«ev:sort_by_key», Sym.«ev:UnsafeCell::raw_get»]
 
 def memOp? (e : Nat × Nat) : Option (List MemOp) :=
   if boxedNeutral.contains e.1 then some []
   else if e.1 = Sym.«ev:Box::new» then some [.boxNew]
-  else if e.1 = Sym.«ev:Box::leak» then some [.boxLeak]
+  else if e.1 = Sym.«ev:Box::leak» || e.1 = Sym.«ev:Box::into_raw» then some [.boxLeak]   -- the Box value is given up either way
   else if e.1 = Sym.«ev:Vec::new» then some [.buildLocks]
-  else if e = (Sym.«ev:mem::transmute», Sym.«op:locks») then some []        -- lifetimes only
+  else if e.1 = Sym.«ev:mem::transmute» then some []                        -- moves its argument; lifetimes only
   else if e = (Sym.«ev:clear», Sym.«op:self.locks») then some [.clearLocks]
   else if e = (Sym.«ev:ptr::drop_in_place», Sym.«op:&mutself.locks») then some [.dropLocksInPlace]
   else if e = (Sym.«ev:Box::from_raw», Sym.«op:self.data.cast_mut()») then some [.fromRaw]
@@ -80,11 +80,13 @@ def boxedNewOps : Option (List MemOp) := memOps? (ownOf Sym.BoxedLockCollection 
 def boxedDropOps : Option (List MemOp) := memOps? (ownOf Sym.BoxedLockCollection Sym.drop)
 def boxedIntoChildOps : Option (List MemOp) := memOps? (ownOf Sym.BoxedLockCollection Sym.into_child)
 
-/-- for the report: which of the three boxed functions is unrecognised or unclean -/
-def c16_boxedLife : List Nat :=
+/-- for the report: which of the three boxed functions has a record the reading does not recognise -/
+def c16_boxedUnread : List Nat :=
   (if boxedNewOps.isNone then [Sym.new_unchecked] else []) ++
   (if boxedDropOps.isNone then [Sym.drop] else []) ++
-  (if boxedIntoChildOps.isNone then [Sym.into_child] else []) ++
+  (if boxedIntoChildOps.isNone then [Sym.into_child] else [])
+/-- for the report: recognised, but the life cycle is not clean on the heap-cell model -/
+def c16_boxedLife : List Nat :=
   (match boxedNewOps, boxedDropOps, boxedIntoChildOps with
    | some n, some d, some c =>
      (if (lifeDrop n d).clean false then [] else [Sym.drop]) ++
@@ -93,18 +95,31 @@ def c16_boxedLife : List Nat :=
 
 /-! ### (3) lockable.rs arrays → fill loops -/
 
-/-- the loop headers under which `i` runs over `0..N` once each, element `i` in hand -/
-def fillLoops : List Nat :=
-  [Sym.«op:iin0..N», Sym.«op:(i,lock)inself.iter_mut().enumerate()», Sym.«op:(i,lock)inself.into_iter().enumerate()»]
+/-- the loop headers under which iteration `i` (for `i` in `0..N`, once each) has element `i` in hand;
+loop variables appear under their positional names `$0`, `$1` (the translator renames them).
+`idx`: `$0` is the index `i`; `enum`: `$0` is the index, `$1` the element; `zip`: `$0` is slot `i` of
+the uninitialised array, `$1` the element -/
+inductive FillLoop | idx | enum | zip
+  deriving DecidableEq, Repr
+
+def fillLoop? (hdr : Nat) : Option FillLoop :=
+  if hdr = Sym.«op:$0in0..N» then some .idx
+  else if hdr = Sym.«op:($0,$1)inself.iter_mut().enumerate()» || hdr = Sym.«op:($0,$1)inself.into_iter().enumerate()» then some .enum
+  else if hdr = Sym.«op:($0,$1)inguards.iter_mut().zip(self.iter())» || hdr = Sym.«op:($0,$1)inguards.iter_mut().zip(self.iter_mut())»
+       || hdr = Sym.«op:($0,$1)inguards.iter_mut().zip(self.into_iter())» then some .zip
+  else none
 /-- calls that only set up the iterator -/
-def fillSetup : List Nat := [Sym.«ev:iter_mut», Sym.«ev:into_iter», Sym.«ev:enumerate»]
-/-- the element of iteration `i`: `self[i]` or the `lock` the iterator yields -/
-def fillSrc (a : Nat) : Option Idx :=
-  if a = Sym.«op:self[i]» || a = Sym.«op:lock» then some .loopVar
-  else if a = Sym.«op:self[0]» then some (.const 0) else none
-def fillDst (a : Nat) : Option Idx :=
-  if a = Sym.«op:guards[i]» then some .loopVar
-  else if a = Sym.«op:guards[0]» then some (.const 0) else none
+def fillSetup : List Nat := [Sym.«ev:iter_mut», Sym.«ev:into_iter», Sym.«ev:enumerate», Sym.«ev:zip», Sym.«ev:iter»]
+/-- the element of iteration `i` -/
+def fillSrc (k : FillLoop) (a : Nat) : Option Idx :=
+  match k with
+  | .idx => if a = Sym.«op:self[$0]» then some .loopVar else if a = Sym.«op:self[0]» then some (.const 0) else none
+  | .enum | .zip => if a = Sym.«op:$1» then some .loopVar else if a = Sym.«op:self[0]» then some (.const 0) else none
+/-- the slot written in iteration `i` -/
+def fillDst (k : FillLoop) (a : Nat) : Option Idx :=
+  match k with
+  | .idx | .enum => if a = Sym.«op:guards[$0]» then some .loopVar else if a = Sym.«op:guards[0]» then some (.const 0) else none
+  | .zip => if a = Sym.«op:$0» then some .loopVar else if a = Sym.«op:guards[0]» then some (.const 0) else none
 
 /-- the event code of a call to the element function of the same name -/
 def evOfFn (fn : Nat) : Nat :=
@@ -117,12 +132,15 @@ one element call; one `write`; `endfor`; `guards.map(|g| g.assume_init())` -/
 def arrFill? (fn : Nat) (evs : List (Nat × Nat)) : Option ArrFill :=
   match evs.filter fun e => !fillSetup.contains e.1 with
   | [(u, _), (a, _), (f, hdr), (call, src), (w, dst), (ef, _), (ai, g), (mp, gs)] =>
-    if u = Sym.«ev:MaybeUninit::uninit» && a = Sym.«ev:assume_init» && f = Sym.«ev:for» && fillLoops.contains hdr
+    if u = Sym.«ev:MaybeUninit::uninit» && a = Sym.«ev:assume_init» && f = Sym.«ev:for» && (fillLoop? hdr).isSome
        && call = evOfFn fn && w = Sym.«ev:write» && ef = Sym.«ev:endfor» && ai = Sym.«ev:assume_init»
        && g = Sym.«op:g» && mp = Sym.«ev:map» && gs = Sym.«op:guards» then
-      match fillSrc src, fillDst dst with
-      | some s, some d => some { dst := d, src := s }
-      | _, _ => none
+      match fillLoop? hdr with
+      | none => none
+      | some k =>
+        match fillSrc k src, fillDst k dst with
+        | some s, some d => some { dst := d, src := s }
+        | _, _ => none
     else none
   | _ => none
 
@@ -131,6 +149,13 @@ def c16_arrayFills : List Nat :=
   arrayFns.filter fun fn =>
     let rs := ownAllOf 1 fn
     rs.isEmpty || !rs.all fun r => arrFill? fn r == some { dst := .loopVar, src := .loopVar }
+/-- … of these, the ones whose record is not recognised as a fill loop at all -/
+def c16_arrayUnread : List Nat :=
+  arrayFns.filter fun fn =>
+    let rs := ownAllOf 1 fn
+    rs.isEmpty || rs.any fun r => (arrFill? fn r).isNone
+/-- … and the ones recognised as a fill loop that writes the wrong slot or reads the wrong element -/
+def c16_arrayWrong : List Nat := c16_arrayFills.filter fun fn => !c16_arrayUnread.contains fn
 
 /-! ### (4) utils.rs: surplus panic payloads -/
 
